@@ -1005,13 +1005,18 @@ MANIFEST = {
             "validity predicate on subdivision indices the verdict is true iff the end state and every k/n point are valid, both "
             "forms agree, the failure report is the least invalid index with fraction (j-1)/n in [0,1), lastValid is untouched on "
             "success, the bisection queue visits every index exactly once (well-founded queue measure), exactly one counter "
-            "advances by one.  Tied to libompl by line-by-line differential runs of the real validators against the compiled "
+            "advances by one (with or without a Dubins3D path); getMotionStates returns min(size, wanted) states, slot p holds "
+            "exactly the p-th element of [s1]+[interpolate j/(count+1)]+[s2], never writes past a provided vector, and with the "
+            "callers' count = n-1 (incl. the UINT_MAX wrap) yields exactly checkMotion's interior points.  Tied to libompl by line-by-line differential runs of the real validators against the compiled "
             "model with a scripted, recording StateValidityChecker (verdict, fraction bits, last-valid state vs interpolant, "
-            "full query order, counters), plus an independent Python oracle of the property on the implementation's outputs.",
+            "full query order, counters; index-set and geometric box predicates; getMotionStates slot by slot incl. under-sized "
+            "vectors), plus an independent Python oracle of the property on the implementation's outputs.",
     "note": "Trusted: Lean kernel, the three standard axioms, the hand-written model outside the explored inputs, the harness' "
             "state->index decoding.  interpolate/distance/isValid are oracles (C07/C06/C14).  n = 0 with an invalid end state "
             "(fraction -1/0) is excluded from the [0,1) clause and only exercised.  F7 (Dubins/RS/Dubins3D two-argument check did "
-            "not count an invalid end state) is modelled as fixed; `counters_old_fails` keeps the witness for the old code.",
+            "not count an invalid end state) is fixed in /repo; `counters_old_fails` keeps the witness for the old code.  F75 "
+            "(Dubins3D returns false without counting when getPath finds no path) is a recorded finding: the model follows the "
+            "proposed fix, `counters_nopath_old_fails` is the witness, lastValid stays unset there.",
     "technique": "Lean 4 proof (induction on the scan; well-founded induction on the bisection queue; permutation of the index range) "
                  "+ differential correspondence + spec oracle",
 }
